@@ -9,14 +9,25 @@
 //!      | {"op": "verify", "key": j, "msg": hex, "t": null|string, "sig": {"raw": hex} | {"by": i, "msg": hex, "t": null|string, "mut": M}}
 //!   M = null | {"flip": bit} | {"trunc": n} | {"extend": hex} | "neg_s" | "s_plus_n"
 //! Every op is self-contained (a verify names the signature it checks by how it is made), so op lists shrink freely.
-//! `out` = per op the dispatch outcome: sign ↦ {"ok": length} | {"err": kind}; verify ↦ true | false | {"err": kind} | {"sigerr": kind}.
-//! Signature bytes are never compared with the model (curve arithmetic is outside it); they are judged here:
-//! RFC 8032 §7.1 and RFC 6979 A.2.5 / A.2.6 vectors, determinism, own-signature verification, rejection of every mutation, low-S for secp256k1.
+//! `out` = per op: sign ↦ {"ok": length, "sig": hex, "pub": hex} | {"err": kind}; verify ↦ true | false | {"err": kind} | {"sigerr": kind}.
+//! The Lean side computes the same from executable specifications of Ed25519 (RFC 8032) and ECDSA + RFC 6979 (`lean/AskarModel/Crypto/
+//! {Ed25519,Ecdsa}.lean`): the signature VALUE of every sign op and the VERDICT of every verify op.  The key material the specification
+//! needs for keys whose secret is not in the case (generate / seed / JWK) is exported here and handed over as `model_input.km`.
+//! The executor ALSO asks the compiled specification itself (a child process running the C13 driver, one per worker thread, fed the
+//! case + "km" + "spec": true) and turns every difference in a signature value / public key / verification verdict into an oracle
+//! failure `sign:value-differs-from-spec:<alg>[:digest-ge-n]`, `key:public-differs-from-spec:<alg>`,
+//! `verify:verdict-differs-from-spec:<alg>:<class>` — so a deviation is reported with its input, not only as a correspondence break.
+//! (`ASKAR_C13_SPEC_BIN` overrides the path of the driver binary; `ASKAR_C13_SPEC=off` disables the child.)
+//! Judged here without the specification: RFC 8032 §7.1 and RFC 6979 A.2.5 / A.2.6 vectors, determinism, own-signature verification,
+//! rejection of every mutation, low-S for secp256k1.
 use crate::rng::Rng;
 use aries_askar::kms::{KeyAlg, LocalKey};
 use aries_askar::{Error, ErrorKind};
 use serde_json::{json, Map, Value};
+use std::cell::RefCell;
 use std::collections::HashMap;
+use std::io::{BufRead, BufReader, Write};
+use std::process::{Child, ChildStdin, ChildStdout, Command, Stdio};
 use std::str::FromStr;
 
 // ---------------------------------------------------------------------------------------------------------------------
@@ -129,6 +140,7 @@ struct K {
     alg: String,
     has_secret: bool,
     public: Option<Vec<u8>>,
+    secret: Option<Vec<u8>>,
 }
 
 fn build_key(spec: &Value, built: &[K]) -> Result<K, Error> {
@@ -157,13 +169,17 @@ fn build_key(spec: &Value, built: &[K]) -> Result<K, Error> {
         }
     };
     let public = key.to_public_bytes().ok().map(|b| b.to_vec());
-    Ok(K { key, alg, has_secret, public })
+    let secret = if has_secret { key.to_secret_bytes().ok().map(|b| b.to_vec()) } else { None };
+    Ok(K { key, alg, has_secret, public, secret })
 }
 
 struct Ctx {
     oracle: Vec<Value>,
     feat: Map<String, Value>,
     cache: HashMap<(usize, Vec<u8>, Option<String>), Result<Vec<u8>, &'static str>>,
+    /// per op: (algorithm of the key, mutation class of the signature presented) — context for the comparison with the specification
+    meta: Vec<(String, String)>,
+    cur: Option<(String, String)>,
 }
 
 impl Ctx {
@@ -281,7 +297,8 @@ fn run_op(cx: &mut Ctx, keys: &[K], op: &Value) -> Value {
             }
         }
         if !keys[i].has_secret && r.is_ok() { cx.fail(format!("sign:ok-without-secret:{}", keys[i].alg), json!({})); }
-        return match r { Ok(s) => json!({"ok": s.len()}), Err(n) => json!({"err": n}) };
+        cx.cur = Some((keys[i].alg.clone(), "sign".into()));
+        return match r { Ok(s) => json!({"ok": s.len(), "sig": hex::encode(&s), "pub": keys[i].public.as_ref().map(hex::encode)}), Err(n) => json!({"err": n}) };
     }
     cx.bump("op_verify");
     let sj = &op["sig"];
@@ -319,6 +336,7 @@ fn run_op(cx: &mut Ctx, keys: &[K], op: &Value) -> Value {
     }
     let r = keys[i].key.verify_signature(&msg, &sig, t.as_deref());
     let alg = keys[i].alg.clone();
+    cx.cur = Some((alg.clone(), class.to_string()));
     let ctx = || json!({"alg": alg, "msg": hex::encode(&msg), "sig": hex::encode(&sig), "t": t, "op": op});
     if r.is_ok() && foreign_type(&alg, t.as_deref()) { cx.fail(format!("verify:err->ok:foreign-type:{}", alg), json!({"t": t})); }
     match &r {
@@ -346,7 +364,8 @@ fn run_op(cx: &mut Ctx, keys: &[K], op: &Value) -> Value {
 }
 
 pub fn exec(case: &Value, _tag: &str) -> Value {
-    let mut cx = Ctx { oracle: vec![], feat: Map::new(), cache: HashMap::new() };
+    if case["kind"].as_str() == Some("c13:selftest") { return exec_selftest(case); }
+    let mut cx = Ctx { oracle: vec![], feat: Map::new(), cache: HashMap::new(), meta: vec![], cur: None };
     let mut keys: Vec<K> = vec![];
     for (i, spec) in case["keys"].as_array().cloned().unwrap_or_default().iter().enumerate() {
         match build_key(spec, &keys) {
@@ -375,9 +394,124 @@ pub fn exec(case: &Value, _tag: &str) -> Value {
     let mut out = vec![];
     for op in case["ops"].as_array().cloned().unwrap_or_default().iter() {
         out.push(run_op(&mut cx, &keys, op));
+        let m = cx.cur.take().unwrap_or_default();
+        cx.meta.push(m);
     }
     cx.bump(&format!("case_{}", case["kind"].as_str().unwrap_or("c13").trim_start_matches("c13:")));
-    json!({"out": out, "oracle": cx.oracle, "feat": cx.feat})
+    // key material for the specification: what the library itself exports for each key
+    let km: Vec<Value> = keys.iter().map(|k| json!({"sk": k.secret.as_ref().map(hex::encode), "pk": k.public.as_ref().map(hex::encode)})).collect();
+    // a "secret" key must export the bytes it was built from (the specification signs with the case's bytes, not with the export)
+    for (i, spec) in case["keys"].as_array().cloned().unwrap_or_default().iter().enumerate() {
+        if spec["src"].as_str() == Some("secret") && sig_len_of(&keys[i].alg).is_some() {
+            if keys[i].secret.as_ref().map(hex::encode).as_deref() != spec["data"].as_str().map(|s| s.to_lowercase()).as_deref() {
+                cx.fail(format!("key:secret-export-differs-from-import:{}", keys[i].alg), json!({"key": i}));
+            }
+        }
+    }
+    compare_with_spec(&mut cx, case, &km, &out);
+    json!({"out": out, "oracle": cx.oracle, "feat": cx.feat, "model_input": {"km": km}})
+}
+
+// ---------------------------------------------------------------------------------------------------------------------
+// the executable specification (compiled Lean driver) as an oracle
+
+struct SpecProc { child: Child, stdin: ChildStdin, stdout: BufReader<ChildStdout> }
+
+impl Drop for SpecProc {
+    fn drop(&mut self) { self.child.kill().ok(); self.child.wait().ok(); }
+}
+
+thread_local! { static SPEC: RefCell<Option<SpecProc>> = RefCell::new(None); }
+
+fn spec_bin() -> String {
+    std::env::var("ASKAR_C13_SPEC_BIN").unwrap_or_else(|_| concat!(env!("CARGO_MANIFEST_DIR"), "/../lean/.lake/build/bin/askar_model_c13").to_string())
+}
+
+fn spec_start() -> Result<SpecProc, String> {
+    let mut child = Command::new(spec_bin()).stdin(Stdio::piped()).stdout(Stdio::piped()).stderr(Stdio::null()).spawn()
+        .map_err(|e| format!("spawn {}: {}", spec_bin(), e))?;
+    let stdin = child.stdin.take().ok_or("no stdin")?;
+    let stdout = BufReader::new(child.stdout.take().ok_or("no stdout")?);
+    Ok(SpecProc { child, stdin, stdout })
+}
+
+/// one case line in, the driver's `out` back
+fn spec_query(line: &str) -> Result<Value, String> {
+    SPEC.with(|cell| {
+        let mut g = cell.borrow_mut();
+        for attempt in 0..2 {
+            if g.is_none() { *g = Some(spec_start()?); }
+            let p = g.as_mut().unwrap();
+            let sent = writeln!(p.stdin, "{}", line).and_then(|_| p.stdin.flush());
+            let mut resp = String::new();
+            let got = if sent.is_ok() { p.stdout.read_line(&mut resp).unwrap_or(0) } else { 0 };
+            if got > 0 {
+                return serde_json::from_str::<Value>(&resp).map(|v| v["out"].clone()).map_err(|e| format!("spec answer: {}", e));
+            }
+            *g = None;   // the child died: start a fresh one once
+            if attempt == 1 { return Err("the specification process gives no answer".into()); }
+        }
+        Err("unreachable".into())
+    })
+}
+
+/// H(m) >= n as integers (the case in which RFC 6979's bits2octets reduces the digest)
+fn digest_ge_n(alg: &str, msg: &[u8]) -> bool {
+    use sha2::Digest;
+    let d: Vec<u8> = match alg { "p384" => sha2::Sha384::digest(msg).to_vec(), "p256" | "k256" => sha2::Sha256::digest(msg).to_vec(), _ => return false };
+    d >= order_of(alg)
+}
+
+fn compare_with_spec(cx: &mut Ctx, case: &Value, km: &[Value], out: &[Value]) {
+    if std::env::var("ASKAR_C13_SPEC").map_or(false, |v| v == "off") { cx.bump("spec_off"); return; }
+    let mut q = case.clone();
+    q["km"] = json!(km);
+    q["spec"] = json!(true);
+    let spec = match spec_query(&q.to_string()) {
+        Ok(Value::Array(a)) if a.len() == out.len() => a,
+        Ok(other) => { cx.fail("spec:unusable-answer".into(), json!({"answer": other.to_string().chars().take(300).collect::<String>()})); return; }
+        Err(e) => { cx.fail("spec:unavailable".into(), json!({"error": e})); return; }
+    };
+    let ops = case["ops"].as_array().cloned().unwrap_or_default();
+    for (i, (mine, want)) in out.iter().zip(spec.iter()).enumerate() {
+        let (alg, class) = cx.meta.get(i).cloned().unwrap_or_default();
+        let msg = unhex(ops[i]["msg"].as_str().unwrap_or(""));
+        if let Some(sig) = mine["sig"].as_str() {
+            // a signature was produced: its value and the signer's public key are fixed by the RFCs
+            match want["rfc"].as_str() {
+                Some(w) if w == sig => cx.bump("spec_sign_match"),
+                Some(w) => {
+                    let tail = if digest_ge_n(&alg, &msg) { ":digest-ge-n" } else { "" };
+                    cx.fail(format!("sign:value-differs-from-spec:{}{}", alg, tail), json!({"op": i, "key": km.get(ops[i]["key"].as_u64().unwrap_or(0) as usize),
+                        "msg": hex::encode(&msg), "library": sig, "rfc": w, "library_equals_unreduced_digest_variant": want["sig"].as_str() == Some(sig)}));
+                }
+                None => cx.fail(format!("sign:no-spec-value:{}", alg), json!({"op": i, "spec": want})),
+            }
+            match (mine["pub"].as_str(), want["pub"].as_str()) {
+                (Some(a), Some(b)) if a == b => cx.bump("spec_pub_match"),
+                (a, b) => cx.fail(format!("key:public-differs-from-spec:{}", alg), json!({"op": i, "library": a, "spec": b})),
+            }
+        } else if let (Some(a), Some(b)) = (mine.as_bool(), want.as_bool()) {
+            if a == b { cx.bump("spec_verify_match"); } else {
+                cx.fail(format!("verify:verdict-differs-from-spec:{}:{}", alg, class), json!({"op": ops[i], "library": a, "spec": b, "key": km.get(ops[i]["key"].as_u64().unwrap_or(0) as usize)}));
+            }
+        }
+        // every other difference (error kinds, ok versus error) is the dispatch: judged by the model comparison and by the checks above
+    }
+}
+
+fn exec_selftest(case: &Value) -> Value {
+    // the specifications' own tests against the RFC vectors: all must hold
+    let want = json!({"sha2": true, "hmac": true, "ed25519": true, "ecdsa": true});
+    let mut oracle = vec![];
+    if !std::env::var("ASKAR_C13_SPEC").map_or(false, |v| v == "off") {
+        match spec_query(&case.to_string()) {
+            Ok(v) if v == want => {}
+            Ok(v) => oracle.push(json!({"sig": "spec:selftest-failed", "detail": v})),
+            Err(e) => oracle.push(json!({"sig": "spec:unavailable", "detail": {"error": e}})),
+        }
+    }
+    json!({"out": want, "oracle": oracle, "feat": {"case_selftest": 1}})
 }
 
 // ---------------------------------------------------------------------------------------------------------------------
@@ -495,9 +629,28 @@ fn type_strings(r: &mut Rng, thorough: bool) -> Vec<String> {
     v
 }
 
+/// RFC 8032 section 7.1 "TEST 1024": the 1023-byte message
+const MSG_1024: &str = concat!(
+    "08b8b2b733424243760fe426a4b54908632110a66c2f6591eabd3345e3e4eb98fa6e264bf09efe12ee50f8f54e9f77b1e355f6c50544e23fb1433ddf73be84d8",
+    "79de7c0046dc4996d9e773f4bc9efe5738829adb26c81b37c93a1b270b20329d658675fc6ea534e0810a4432826bf58c941efb65d57a338bbd2e26640f89ffbc",
+    "1a858efcb8550ee3a5e1998bd177e93a7363c344fe6b199ee5d02e82d522c4feba15452f80288a821a579116ec6dad2b3b310da903401aa62100ab5d1a36553e",
+    "06203b33890cc9b832f79ef80560ccb9a39ce767967ed628c6ad573cb116dbefefd75499da96bd68a8a97b928a8bbc103b6621fcde2beca1231d206be6cd9ec7",
+    "aff6f6c94fcd7204ed3455c68c83f4a41da4af2b74ef5c53f1d8ac70bdcb7ed185ce81bd84359d44254d95629e9855a94a7c1958d1f8ada5d0532ed8a5aa3fb2",
+    "d17ba70eb6248e594e1a2297acbbb39d502f1a8c6eb6f1ce22b3de1a1f40cc24554119a831a9aad6079cad88425de6bde1a9187ebb6092cf67bf2b13fd65f270",
+    "88d78b7e883c8759d2c4f5c65adb7553878ad575f9fad878e80a0c9ba63bcbcc2732e69485bbc9c90bfbd62481d9089beccf80cfe2df16a2cf65bd92dd597b07",
+    "07e0917af48bbb75fed413d238f5555a7a569d80c3414a8d0859dc65a46128bab27af87a71314f318c782b23ebfe808b82b0ce26401d2e22f04d83d1255dc51a",
+    "ddd3b75a2b1ae0784504df543af8969be3ea7082ff7fc9888c144da2af58429ec96031dbcad3dad9af0dcbaaaf268cb8fcffead94f3c7ca495e056a9b47acdb7",
+    "51fb73e666c6c655ade8297297d07ad1ba5e43f1bca32301651339e22904cc8c42f58c30c04aafdb038dda0847dd988dcda6f3bfd15c4b4c4525004aa06eeff8",
+    "ca61783aacec57fb3d1f92b0fe2fd1a85f6724517b65e614ad6808d6f6ee34dff7310fdc82aebfd904b01e1dc54b2927094b2db68d6f903b68401adebf5a7e08",
+    "d78ff4ef5d63653a65040cf9bfd4aca7984a74d37145986780fc0b16ac451649de6188a7dbdf191f64b5fc5e2ab47b57f7f7276cd419c17a3ca8e1b939ae49e4",
+    "88acba6b965610b5480109c8b17b80e1b7b750dfc7598d5d5011fd2dcc5600a32ef5b52a1ecc820e308aa342721aac0943bf6686b64b2579376504ccc493d97e",
+    "6aed3fb0f9cd71a43dd497f01f17c0e2cb3797aa2a2f256656168e6c496afc5fb93246f6b1116398a346f1a641f3b041e989f7914f90cc2c7fff357876e506b5",
+    "0d334ba77c225bc307ba537152f3f1610e4eafe595f6d9d90d11faa933a15ef1369546868a7f3a45a96768d40fd9d03412c091c6315cf4fde7cb68606937380d",
+    "b2eaaa707b4c4185c32eddcdd306705e4dc1ffc872eeee475a64dfac86aba41c0618983f8741c5ef68d3a101e8a3b8cac60c905c15fc910840b94c00a0b9d0");
+
 struct RfcKey { alg: &'static str, secret: &'static str, public: &'static str, jwk_extra: &'static str, sigs: &'static [(&'static str, &'static str)] }
 
-/// RFC 8032 section 7.1 (TEST 1, 2, 3, SHA(abc)); RFC 6979 A.2.5 (P-256 / SHA-256) and A.2.6 (P-384 / SHA-384), messages "sample", "test".
+/// RFC 8032 section 7.1 (TEST 1, 2, 3, SHA(abc), 1024); RFC 6979 A.2.5 (P-256 / SHA-256) and A.2.6 (P-384 / SHA-384), messages "sample", "test".
 /// `public` = the library's public-bytes form: Ed25519 the 32 bytes; ECDSA the SEC1 compressed point (02|03 by parity of Uy, then Ux);
 /// `jwk_extra` = Uy for the JWK.
 const RFC_KEYS: &[RfcKey] = &[
@@ -514,6 +667,9 @@ const RFC_KEYS: &[RfcKey] = &[
         public: "ec172b93ad5e563bf4932c70e1245034c35467ef2efd4d64ebf819683467e2bf", jwk_extra: "",
         sigs: &[("ddaf35a193617abacc417349ae20413112e6fa4e89a97ea20a9eeee64b55d39a2192992a274fc1a836ba3c23a3feebbd454d4423643ce80e2a9ac94fa54ca49f",
                  "dc2a4459e7369633a52b1bf277839a00201009a3efbf3ecb69bea2186c26b58909351fc9ac90b3ecfdfbc7c66431e0303dca179c138ac17ad9bef1177331a704")] },
+    RfcKey { alg: "ed25519", secret: "f5e5767cf153319517630f226876b86c8160cc583bc013744c6bf255f5cc0ee5",
+        public: "278117fc144c72340f67d0f2316e8386ceffbf2b2428c9c51fef7c597f1d426e", jwk_extra: "",
+        sigs: &[(MSG_1024, "0aab4c900501b3e24d7cdf4663326a3a87df5e4843b2cbdb67cbf6e460fec350aa5371b1508f9f4528ecea23c436d94b5e8fcd4f681e30a6ac00a9704a188a03")] },
     RfcKey { alg: "p256", secret: "c9afa9d845ba75166b5c215767b1d6934e50c3db36e89b127b8a622b120f6721",
         public: "0360fed4ba255a9d31c961eb74c6356d68c049b8923b61fa6ce669622e60f29fb6",
         jwk_extra: "7903fe1008b8bc99a41ae9e95628bc64f2f1b20c2d7e9f5177a3c294d4462299",
@@ -618,25 +774,31 @@ fn gen_round(r: &mut Rng, idx: usize, thorough: bool) -> Value {
     json!({"kind": "c13:round", "keys": keys, "ops": ops})
 }
 
-/// every single-bit mutation of a short message and of its signature
-fn gen_flip(r: &mut Rng, idx: usize, thorough: bool) -> Value {
+/// every single-bit mutation of a short message and of its signature.  One key pair and message, delivered as `parts` cases that
+/// share keys and message and divide the signature bits between them (bit b goes to part b mod parts), so that the cases stay small;
+/// a "generate" key is a fresh key pair in each part.
+fn gen_flip(r: &mut Rng, idx: usize, thorough: bool, parts: usize) -> Vec<Value> {
     let alg = SIG_ALGS[idx % 4];
     let keys = vec![base_key(r, alg, idx / 4), json!({"src": "public_of", "of": 0})];
     let mlen = if thorough { 1 + (idx / 4) % 16 } else { 1 + (idx / 4) % 4 };
     let msg = r.bytes(mlen);
     let t: Option<&str> = if (idx / 4) % 2 == 0 { None } else { Some(native(alg)) };
-    let mut ops = vec![sign_op(0, &msg, t), verify_op(1, &msg, t, 0, &msg, t, Value::Null)];
-    for b in 0..mlen * 8 {
-        let mut m2 = msg.clone();
-        m2[b / 8] ^= 1 << (b % 8);
-        ops.push(verify_op(b % 2, &m2, t, 0, &msg, t, Value::Null));
-    }
-    for b in 0..sig_len_of(alg).unwrap() * 8 {
-        ops.push(verify_op(b % 2, &msg, t, 0, &msg, t, json!({"flip": b})));
-    }
-    // the empty message has no bit to flip: extend it instead
-    ops.push(verify_op(1, &[], t, 0, &msg, t, Value::Null));
-    json!({"kind": "c13:flip", "keys": keys, "ops": ops})
+    (0..parts).map(|part| {
+        let mut ops = vec![sign_op(0, &msg, t), verify_op(1, &msg, t, 0, &msg, t, Value::Null)];
+        if part == 0 {
+            for b in 0..mlen * 8 {
+                let mut m2 = msg.clone();
+                m2[b / 8] ^= 1 << (b % 8);
+                ops.push(verify_op(b % 2, &m2, t, 0, &msg, t, Value::Null));
+            }
+            // the empty message has no bit to flip: extend it instead
+            ops.push(verify_op(1, &[], t, 0, &msg, t, Value::Null));
+        }
+        for b in (0..sig_len_of(alg).unwrap() * 8).filter(|b| b % parts == part) {
+            ops.push(verify_op((b / parts) % 2, &msg, t, 0, &msg, t, json!({"flip": b})));
+        }
+        json!({"kind": "c13:flip", "keys": keys, "ops": ops})
+    }).collect()
 }
 
 /// arbitrary byte strings of every length 0..=200 as signature, plus structured near-signatures
@@ -676,12 +838,17 @@ fn gen_garbage(r: &mut Rng, idx: usize, thorough: bool) -> Value {
     if alg == "ed25519" {
         // small-order public keys (identity, order 2, order 4, order 8) are importable; a cofactorless non-strict verifier accepts
         // (R = identity, S = 0) under them for every / every second / fourth / eighth message; `verify_strict` must not
-        const WEAK: [&str; 5] = [
+        // the last three are NON-CANONICAL encodings (identity with the sign bit set; y = p + 1 = 1; y = p = 0): RFC 8032 decoding
+        // rejects them, `curve25519-dalek` decompression (hence `from_public_bytes`) accepts them; all are of small order
+        const WEAK: [&str; 8] = [
             "0100000000000000000000000000000000000000000000000000000000000000",
             "ecffffffffffffffffffffffffffffffffffffffffffffffffffffffffffff7f",
             "0000000000000000000000000000000000000000000000000000000000000000",
             "0000000000000000000000000000000000000000000000000000000000000080",
             "26e8958fc2b227b045c3f489f2ef98f0d5dfac05d3c63339b13802886d53fc05",
+            "0100000000000000000000000000000000000000000000000000000000000080",
+            "eeffffffffffffffffffffffffffffffffffffffffffffffffffffffffffff7f",
+            "edffffffffffffffffffffffffffffffffffffffffffffffffffffffffffff7f",
         ];
         for w in WEAK {
             let ki = keys.len();
@@ -770,16 +937,38 @@ fn gen_cross(r: &mut Rng, idx: usize, _thorough: bool) -> Value {
     json!({"kind": "c13:cross", "keys": keys, "ops": ops})
 }
 
+/// messages whose digest, read as an integer, is >= the group order: RFC 6979 (bits2octets) reduces it before seeding the nonce generator.
+/// Only P-256 has reachable instances (probability 2^-32 per message; found by search): SHA-256("c13:195160577") = ffffffffd2345e11...
+const DIGEST_GE_N_P256: &[&str] = &["c13:195160577"];
+
+fn gen_digest(r: &mut Rng) -> Value {
+    let keys = vec![
+        json!({"alg": "p256", "src": "secret", "data": RFC_KEYS.iter().find(|k| k.alg == "p256").map(|k| k.secret).unwrap_or("")}),
+        json!({"alg": "p256", "src": "secret", "data": hex::encode(rand_secret(r, "p256"))}),
+        json!({"alg": "k256", "src": "secret", "data": hex::encode(rand_secret(r, "k256"))}),
+        json!({"src": "public_of", "of": 0}),
+    ];
+    let mut ops = vec![];
+    for m in DIGEST_GE_N_P256 {
+        for k in 0..3 {
+            ops.push(sign_op(k, m.as_bytes(), None));
+            ops.push(verify_op(if k == 0 { 3 } else { k }, m.as_bytes(), None, k, m.as_bytes(), None, Value::Null));
+        }
+    }
+    json!({"kind": "c13:digest", "keys": keys, "ops": ops})
+}
+
 pub fn gen(r: &mut Rng, thorough: bool, count: Option<usize>) -> Vec<Value> {
-    let mut out: Vec<Value> = vec![];
-    let plan: [(usize, usize); 6] = if thorough { [(6, 6), (240, 1), (128, 2), (64, 3), (40, 4), (80, 5)] } else { [(6, 6), (24, 1), (16, 2), (16, 3), (20, 4), (12, 5)] };
+    let mut out: Vec<Value> = vec![json!({"kind": "c13:selftest"})];
+    { let mut rr = r.fork(); out.push(gen_digest(&mut rr)); }
+    let plan: [(usize, usize); 6] = if thorough { [(7, 6), (240, 1), (128, 2), (64, 3), (40, 4), (80, 5)] } else { [(7, 6), (24, 1), (16, 2), (16, 3), (20, 4), (12, 5)] };
     for (n, what) in plan {
         for i in 0..n {
             let mut rr = r.fork();
+            if what == 2 { out.extend(gen_flip(&mut rr, i, thorough, 2)); continue; }
             out.push(match what {
                 6 => gen_rfc(i),
                 1 => gen_round(&mut rr, i, thorough),
-                2 => gen_flip(&mut rr, i, thorough),
                 3 => gen_garbage(&mut rr, i, thorough),
                 4 => gen_type(&mut rr, i, thorough),
                 _ => gen_cross(&mut rr, i, thorough),
